@@ -20,7 +20,8 @@ if [ ! -d /tmp/seedkit/demo_$NAME ] && [ -f $SD/demo_main.go.txt ]; then
 fi
 WT=/tmp/seedv/$NAME
 mkdir -p /tmp/seedv
-rm -rf $WT; git -C /repo worktree prune; git -C /repo worktree add -q --detach $WT HEAD || exit 2
+rm -rf $WT; git -C /repo worktree prune; BASE=${SEED_BASE:-HEAD}   # the commit the patch was written against (meta.json: base_commit)
+git -C /repo worktree add -q --detach $WT $BASE || exit 2
 echo "== verifying $NAME"
 ( cd $WT && git apply $PATCH ) || { echo "PATCH DOES NOT APPLY"; git -C /repo worktree remove --force $WT; exit 2; }
 ( cd $WT && GOFLAGS= go build ./... && GOFLAGS= go test -vet=off -count=1 ./... 2>&1 | tail -2 )
